@@ -94,6 +94,13 @@ MATRIX = [
     dict(entry="atomic", mode="content", initial="canonical", base_hash="current", fmode=0o1600),
     dict(entry="tool", mode="changes", initial="canonical", base_hash="none", fmode=0o000),
     dict(entry="cli_write", mode="content", initial="canonical", base_hash="none", fmode=0o200),
+    # sizes on the far side of every plausible threshold (8 KiB buffers, 64 KiB pipes/slices, 128 KiB): fast paths and
+    # fallbacks that only apply to big -- or only to small -- content
+    dict(entry="tool", mode="content", initial="canonical", base_hash="current", new_style="huge"),
+    dict(entry="atomic", mode="content", initial="huge", base_hash="none"),
+    dict(entry="cli_write", mode="content", initial="over64k", base_hash="none", stdin=True, new_style="huge"),
+    dict(entry="tool", mode="changes", initial="huge", base_hash="current", fmode=0o640),
+    dict(entry="tool", mode="content", initial="absent", base_hash="none", new_style="over64k", parent_missing=1),
 ]
 
 
@@ -113,10 +120,10 @@ def gen_scenario(t: Tape, idx: int, tier: str) -> dict:
             sc["mode"] = "content"
         if sc["mode"] in ("changes", "normalize"):
             sc["initial"] = t.weighted([("canonical", 4), ("lenient", 2), ("frontmatter", 2), ("corpus", 3),
-                                        ("unparseable", 1), ("nonutf8", 1), ("big", 1), ("crlf", 2), ("crlf_frontmatter", 1)], "sc.init")
+                                        ("unparseable", 1), ("nonutf8", 1), ("big", 1), ("crlf", 2), ("crlf_frontmatter", 1), ("huge", 1)], "sc.init")
         else:
             sc["initial"] = t.weighted([("canonical", 4), ("absent", 3), ("lenient", 1), ("frontmatter", 2),
-                                        ("corpus", 2), ("unparseable", 1), ("empty", 1), ("nonutf8", 1), ("big", 1), ("crlf", 1),
+                                        ("corpus", 2), ("unparseable", 1), ("empty", 1), ("nonutf8", 1), ("big", 1), ("huge", 1), ("crlf", 1),
                                         ("crlf_frontmatter", 1)], "sc.init")
         sc["base_hash"] = t.weighted([("none", 4), ("current", 4), ("stale", 1)], "sc.bh")
         if sc["initial"] == "absent":
@@ -143,7 +150,7 @@ def gen_scenario(t: Tape, idx: int, tier: str) -> dict:
             if a:
                 sc["args"] = a
             if not a.get("lenient"):
-                sc["new_style"] = t.weighted([("canonical", 5), ("frontmatter", 1), ("corpus", 2), ("big", 1), ("unicode", 2),
+                sc["new_style"] = t.weighted([("canonical", 5), ("frontmatter", 1), ("corpus", 2), ("big", 1), ("huge", 1), ("unicode", 2),
                                               ("longline", 1), ("nonl", 1), ("trail", 1)], "sc.ns3")
         if entry == "tool" and sc["mode"] != "content" and t.flag(60, "sc.dry2"):
             sc["args"] = {"corrections_only": True}
@@ -200,6 +207,8 @@ def _initial_bytes(t: Tape, kind: str, marker: str, big: int) -> bytes | None:
         return c[t.choose(len(c), "corpus")][1].encode()
     if kind == "big":
         return docs.gen_doc(t, marker, "canonical", size=big).encode()
+    if kind in ("huge", "over64k"):
+        return docs.gen_doc(t, marker, "canonical", size=1500 if kind == "huge" else 700).encode()
     if kind == "unparseable":
         return t.pick(docs.UNPARSEABLE, "unp").encode()
     if kind == "empty":
@@ -215,6 +224,8 @@ def _new_text(t: Tape, style: str, marker: str, big: int) -> str:
         return c[t.choose(len(c), "corpus")][1]
     if style == "big":
         return docs.gen_doc(t, marker, "canonical", size=big)
+    if style in ("huge", "over64k"):
+        return docs.gen_doc(t, marker, "canonical", size=1500 if style == "huge" else 700)
     if style == "bad":
         return docs.gen_doc(t, marker, "lenient") + 'BROKEN::"unterminated\n'
     return docs.gen_doc(t, marker, style)
@@ -705,7 +716,10 @@ def run_case(case: dict, stats: Stats | None = None) -> dict:
     if crash_kinds and len(sim.fired) > len(crash_kinds):
         # earlier non-crash faults may legitimately have changed what 'new' means: continuation reference
         cont = dict(case)
-        cont["faults"] = [_plan(f) for f in sim.fired if f["kind"] not in seam.CRASH_KINDS]
+        # only the faults that fired BEFORE the crash: what fired afterwards (another writer, or cleanup code unwinding from an
+        # interrupt) belongs to an execution that the continuation -- where the crash does not happen -- never reaches
+        first_crash = next(i for i, f in enumerate(sim.fired) if f["kind"] in seam.CRASH_KINDS)
+        cont["faults"] = [_plan(f) for f in sim.fired[:first_crash] if f["kind"] not in seam.CRASH_KINDS]
         cont["fault_cfg"] = None
         cont["tape"] = {"values": list(tape.values)}
         r2 = _simulate(cont, cont["faults"], None, Tape(values=list(tape.values)), tag="cont")
@@ -841,7 +855,7 @@ def make_case(seed: int, idx: int, tier: str, two_writers: bool = False) -> dict
     t = Tape(seed)
     sc = gen_scenario(t, idx, tier)
     knobs = gen_knobs(t)
-    if sc["initial"] in ("big", "corpus") or sc.get("new_style") in ("big", "corpus"):
+    if sc["initial"] in ("big", "corpus", "huge", "over64k") or sc.get("new_style") in ("big", "corpus", "huge", "over64k"):
         knobs["wchunk"] = max(knobs["wchunk"], 4096)
         knobs["rchunk"] = max(knobs["rchunk"], 4096)
     if two_writers and sc["entry"] in ("tool", "atomic"):
